@@ -1,7 +1,8 @@
 #!/venv/bin/python
-"""Self-validation battery: seeded breaks must be reported for their property, silent twins must stay silent.
+"""Self-validation battery: seeded breaks must be reported for their property, silent twins must stay silent, and no check may
+print a VIOLATION on a verified behaviour-preserving refactoring (selftest/refactorings/: exit 0, or exit 2 = verdict withheld).
 
-    selftest/run.py [--jobs 16] [--only C06] [--json out.json]
+    selftest/run.py [--jobs 16] [--only C06] [--json out.json] [--skip-refactorings]
 
 For every /verif/seeded/<id>/patch.diff and /verif/selftest/twins/<name>.diff: copy /repo's working tree to a scratch
 directory (mkdtemp, removed afterwards), apply the patch, run the registered checks on it (evidence goes to the scratch
@@ -65,7 +66,7 @@ def run_one(patch: str, props):
         shutil.rmtree(tmp, ignore_errors=True)
 
 
-def battery(only=None, jobs=16):
+def battery(only=None, jobs=16, refactorings=True):
     from sa.props import PROPS
     all_props = sorted(PROPS)
     tasks = []
@@ -90,7 +91,12 @@ def battery(only=None, jobs=16):
     for pf in sorted(glob.glob(os.path.join(HERE, "twins", "*.diff"))):
         name = os.path.basename(pf)[:-5]
         tasks.append(("twin", name, pf, [only] if only else all_props))
-    res = {"seeded": {}, "twins": {}, "failed": [], "inapplicable": []}
+    if refactorings:
+        for d in sorted(glob.glob(os.path.join(HERE, "refactorings", "*"))):
+            pf = os.path.join(d, "patch.diff")
+            if os.path.isfile(pf):
+                tasks.append(("refactoring", os.path.basename(d), pf, [only] if only else all_props))
+    res = {"seeded": {}, "twins": {}, "refactorings": {}, "failed": [], "inapplicable": []}
     with ThreadPoolExecutor(max_workers=jobs) as ex:
         futs = [(t, ex.submit(run_one, t[2], t[3])) for t in tasks]
         for t, fu in futs:
@@ -115,6 +121,12 @@ def battery(only=None, jobs=16):
                                        "expected": "miss (out of reach)" if exp_miss else "detect"}
                 if detected == exp_miss or rc == 2:
                     res["failed"].append(f"seeded {name}: rc={rc} expected {'miss' if exp_miss else 'detection'}")
+            elif kind == "refactoring":
+                alarms = {p: v for p, v in r.items() if v["rc"] == 1}
+                withheld = sorted(p for p, v in r.items() if v["rc"] == 2)
+                res["refactorings"][name] = {"alarms": alarms, "withheld": withheld, "silent": not alarms and not withheld}
+                if alarms:
+                    res["failed"].append(f"refactoring {name}: VIOLATION on behaviour-preserving code {alarms}")
             else:
                 noisy = {p: v for p, v in r.items() if v["rc"] != 0}
                 res["twins"][name] = {"silent": not noisy, "noisy": noisy}
@@ -122,6 +134,9 @@ def battery(only=None, jobs=16):
                     res["failed"].append(f"twin {name}: {noisy}")
     res["counts"] = {"seeded": len(res["seeded"]), "seeded_detected": sum(v["detected"] for v in res["seeded"].values()),
                      "twins": len(res["twins"]), "twins_silent": sum(v["silent"] for v in res["twins"].values()),
+                     "refactorings": len(res["refactorings"]),
+                     "refactorings_no_alarm": sum(not v["alarms"] for v in res["refactorings"].values()),
+                     "refactorings_all_checks_exit_0": sum(v["silent"] for v in res["refactorings"].values()),
                      "hand": len(res.get("hand", {})), "hand_detected": sum(v["detected"] for v in res.get("hand", {}).values())}
     return res
 
@@ -131,12 +146,15 @@ if __name__ == "__main__":
     ap.add_argument("--jobs", type=int, default=16)
     ap.add_argument("--only")
     ap.add_argument("--json")
+    ap.add_argument("--skip-refactorings", action="store_true")
     a = ap.parse_args()
-    res = battery(a.only, a.jobs)
+    res = battery(a.only, a.jobs, not a.skip_refactorings)
     for k, v in sorted(res["seeded"].items()):
         print(f"seeded {k:8s} {'DETECTED' if v['detected'] else 'missed  '} rc={v['rc']} {v['rules']} [{v['expected']}]")
     for k, v in sorted(res["twins"].items()):
         print(f"twin   {k:32s} {'silent' if v['silent'] else 'NOISY ' + json.dumps(v['noisy'])[:200]}")
+    for k, v in sorted(res["refactorings"].items()):
+        print(f"refactoring {k:12s} {'ALARM ' + json.dumps(v['alarms'])[:200] if v['alarms'] else ('silent' if v['silent'] else 'no alarm; verdict withheld (exit 2) for ' + ' '.join(v['withheld']))}")
     print("inapplicable:", res["inapplicable"])
     print("counts:", res["counts"])
     print("FAILED:" if res["failed"] else "all expectations met", *res["failed"], sep="\n  ")
